@@ -56,12 +56,19 @@ var (
 )
 
 var observed = map[string]bool{}
+var observedMethods = map[string]bool{}
+var observeMethod = flag.String("observe-method", "", "comma separated method names: calls x.M(a, b) without result are routed through simrt.ObserveV2 (the harness sees e.g. every route a server mounts)")
 
 func main() {
 	flag.Parse()
 	if *outDir == "" || *modDir == "" {
 		fmt.Fprintln(os.Stderr, "instr: -mod and -out required")
 		os.Exit(2)
+	}
+	for _, q := range strings.Split(*observeMethod, ",") {
+		if q != "" {
+			observedMethods[q] = true
+		}
 	}
 	for _, q := range strings.Split(*observe, ",") {
 		if q != "" {
@@ -546,6 +553,24 @@ func (rw *rewriter) rewriteCall(c *ast.CallExpr) {
 					rw.used = true
 					rw.stats["Gosched"]++
 				}
+				return
+			}
+		}
+		if observedMethods[fun.Sel.Name] && len(c.Args) == 2 && !c.Ellipsis.IsValid() {
+			if tv, ok := rw.info.Types[c]; ok && tv.IsVoid() {
+				// x.M(a, b)  =>  func() { a0, a1 := a, b; x.M(a0, a1); simrt.ObserveNote("M", a0, a1) }()
+				a0, a1 := &ast.Ident{Name: "verifArg0", NamePos: pos}, &ast.Ident{Name: "verifArg1", NamePos: pos}
+				inner := &ast.CallExpr{Fun: c.Fun, Args: []ast.Expr{a0, a1}}
+				note := &ast.CallExpr{Fun: simSel(pos, "ObserveNote"), Args: []ast.Expr{&ast.BasicLit{Kind: token.STRING, Value: strconv.Quote(fun.Sel.Name)}, a0, a1}}
+				lit := &ast.FuncLit{Type: &ast.FuncType{Params: &ast.FieldList{}}, Body: &ast.BlockStmt{List: []ast.Stmt{
+					&ast.AssignStmt{Lhs: []ast.Expr{a0, a1}, Tok: token.DEFINE, Rhs: []ast.Expr{c.Args[0], c.Args[1]}},
+					&ast.ExprStmt{X: inner},
+					&ast.ExprStmt{X: note},
+				}}}
+				c.Fun = lit
+				c.Args = nil
+				rw.used = true
+				rw.stats["ObserveNote"]++
 				return
 			}
 		}
